@@ -692,6 +692,16 @@ pub fn unit_docs(budget: usize, thorough: bool) -> Report {
     rep
 }
 
+/// C01 does not fix the reader's buffer capacity or the way its source delivers bytes: the round trip must hold for small
+/// buffers and chunked sources too (headers of 9..16 bytes against the look-ahead, payloads crossing refills)
+fn c01_caps(bytes: &[u8], flat: &Vec<(T, usize)>, what: &str, rep: &mut Report) {
+    for (cap, chunk) in [(0usize, vec![]), (9, vec![]), (13, vec![]), (65536, vec![1usize]), (65536, vec![8, 3]), (16, vec![9])] {
+        let mut cfg = Cfg::strict(); cfg.cap = cap; cfg.chunk = chunk;
+        let t = run(bytes, &cfg);
+        rep.clause("C01r/C04: a specification-conformant document reads back as exactly its tags and offsets whatever the buffer capacity and however the source splits the bytes", t.err.is_none() && t.panicked.is_none() && same_items(&t.items, flat), || format!("{} bytes={} {} -> {}", what, rf::hex(bytes), cfg.show(), show_trace(&t)));
+    }
+}
+
 fn doc_work(table: &bs::Table, d: &Vec<Node>, rep: &mut Report, thorough: bool) {
     let table = table.clone();
     let mut rep = rep;
@@ -702,6 +712,7 @@ fn doc_work(table: &bs::Table, d: &Vec<Node>, rep: &mut Report, thorough: bool) 
         let tr = run(&bytes, &Cfg::strict());
         rep.clause("C01r/C03: a specification-conformant document reads (strict) as exactly its tags, in order, with their offsets, and no error", tr.err.is_none() && tr.panicked.is_none() && same_items(&tr.items, &flat), || format!("{} -> {}", ctxd(), show_trace(&tr)));
         check_input(&table, &bytes, &mut *rep, thorough, true);
+        c01_caps(&bytes, &flat, "known-size", &mut *rep);
         // C07: every subset of masters with unknown size reads as the same tag sequence
         let m = count_masters(d);
         if m > 0 && m <= 5 {
@@ -717,6 +728,7 @@ fn doc_work(table: &bs::Table, d: &Vec<Node>, rep: &mut Report, thorough: bool) 
                 rep.clause("C03/C07: offsets of an unknown-size encoding are those of its own bytes", same_off || !same, || format!("{} unknown-mask={:b} -> {}", ctxd(), mask, show_trace(&t)));
                 // headers longer than 8 bytes (8-byte unknown-size fields) under every capacity / chunking / mask
                 check_input(&table, &ub, &mut *rep, thorough, true);
+                if same { c01_caps(&ub, &uflat, "unknown-size", &mut *rep); }
                 if thorough || mask == (1 << m) - 1 { check_trunc(&table, &ub, &uflat, &mut *rep); }
                 check_c02(&table, &ub, &t, &mut *rep);
             }
@@ -738,6 +750,7 @@ fn doc_work(table: &bs::Table, d: &Vec<Node>, rep: &mut Report, thorough: bool) 
             let t = run(&wb, &Cfg::strict());
             rep.clause("C01r/C03: a specification-conformant document reads (strict) as exactly its tags, in order, with their offsets, and no error", t.err.is_none() && t.panicked.is_none() && same_items(&t.items, &wflat), || format!("{} width8-bytes={} -> {}", ctxd(), rf::hex(&wb), show_trace(&t)));
             check_input(&table, &wb, &mut *rep, thorough, thorough);
+            c01_caps(&wb, &wflat, "width-8", &mut *rep);
             check_trunc(&table, &wb, &wflat, &mut *rep);
         }
         // every master of unknown size with the one-byte marker 0xFF
@@ -885,7 +898,7 @@ fn enclosing_known_ends(flat: &[(T, usize)], bytes: &[u8], at: usize) -> Vec<usi
 /// C14: junk that cannot begin any valid tag, inserted at a tag boundary of a valid known-size document
 fn check_recover(table: &bs::Table, bytes: &[u8], flat: &[(T, usize)], rep: &mut Report, thorough: bool) {
     let _ = table;
-    let junks: Vec<Vec<u8>> = if thorough { vec![vec![0x00], vec![0x00, 0x00, 0x00], vec![0x7A, 0x00], vec![0x11], vec![0x00; 9]] } else { vec![vec![0x00], vec![0x7A, 0x00, 0x11]] };
+    let junks: Vec<Vec<u8>> = if thorough { vec![vec![0x00], vec![0x00, 0x00, 0x00], vec![0x7A, 0x00], vec![0x11], vec![0x00; 9]] } else { vec![vec![0x00], vec![0x7A, 0x00, 0x11], vec![0x11, 0x00, 0x00, 0x00, 0x00]] };   // the last one is longer than any leaf element: the next valid tag then starts beyond the declared end of its master
     let starts: Vec<(T, usize)> = flat.iter().filter(|(t, _)| !matches!(t, T::M(_, Master::End))).cloned().collect();
     for (ftag, at) in &starts {
         let at = *at;
